@@ -27,7 +27,7 @@ TECHNIQUE = ("stateless exhaustive enumeration of all thread schedules up to a p
              "(CHESS-style iterative context bounding), sequential-result oracle")
 LEVEL_TEXT = ("All 105 unordered pairs of 14 bodies (netloc-derived accessors in two orders, str/hash, modifiers, query + update_query, "
               "construction of the same new string, cache_configure, cache_clear, IDN build, child/parent, comparisons, pickle) over a "
-              "shared cold pool are explored exhaustively at preemption bound 1 (quick; pairs of the small accessor bodies at bound 2) / 2 (thorough, per-tuple budget reported as a cap when hit, plus "
+              "shared cold pool are explored exhaustively at preemption bound 1 (quick; the accessor-body pairs at bound 2) / 2 (thorough, per-tuple budget reported as a cap when hit, plus "
               "triples containing a cache operation at bound 1), on both backends; every complete schedule must give each body its solo "
               "result and leave the pool's observation unchanged. Scheduling points: every line, and every bytecode inside functions that "
               "store to globals/attributes/items, of yarl's Python code.")
@@ -55,8 +55,8 @@ class Harness:
                          fragment="frag")
         self.C = U("http://cached.example/x y?k=v")
         # objects whose decoded views need multi-byte UTF-8 decoding (each thread decodes a different object)
-        self.D1 = pickle.loads(pickle.dumps(U("http://ü:pä@h.example/p%C3%A9th/%E2%82%AC.t%C3%A4r?k=%C3%A9&%E2%82%AC=1#fr%C3%A4g")))
-        self.D2 = pickle.loads(pickle.dumps(U("http://us%C3%A9r@h.example/%F0%9F%98%80/n%C3%A4me?q=%E2%82%AC+x#%C3%BC")))
+        self.D1 = pickle.loads(pickle.dumps(U("http://ü@h.example/%C3%A9.%E2%82%AC?k=%C3%A9#%C3%A4")))
+        self.D2 = pickle.loads(pickle.dumps(U("http://%C3%A9@h.example/%F0%9F%98%80?q=%E2%82%AC+x#%C3%BC")))
 
 
 def observe_pool(h):
@@ -250,11 +250,11 @@ def plan(ctx):
     n = len(BODIES)
     tasks = []
     pairs = list(itertools.combinations_with_replacement(range(n), 2))
-    small = {0, 1, 2, 10}      # bodies with few scheduling points: bound 2 is cheap there
+    small = {0, 1}      # the two accessor bodies racing on one cold object: bound 2 is affordable there
     for b in BACKENDS:
         for ids in pairs:
             if quick:
-                bound, budget = (2, 6000) if set(ids) <= small else (1, 3000)
+                bound, budget = (2, 6000) if set(ids) <= small else (1, 2500)
             else:
                 bound, budget = 2, 40000
             tasks.append(("checks.C20", "task_tuple", (ids, bound, budget), b, "p"))
@@ -266,7 +266,7 @@ def plan(ctx):
     syms = gil_release_symbols(ctx.build["so"])
     ctx.extra_coverage["atomicity_assumption"] = {"gil_release_symbols_imported_by_extension": syms,
                                                   "holds": not syms, "free_run": "non-exhaustive stress pass, see counters.free_run_calls_not_exhaustive"}
-    ctx.notes["bounds"] = {"bodies": [b[0] for b in BODIES], "pairs": len(pairs), "preemption_bound": "1 (2 for pairs of the small accessor/compare bodies)" if quick else 2,
+    ctx.notes["bounds"] = {"bodies": [b[0] for b in BODIES], "pairs": len(pairs), "preemption_bound": "1 (2 for the accessor-body pairs)" if quick else 2,
                            "budget_per_tuple": "3000-6000" if quick else 40000}
     return tasks
 
